@@ -266,5 +266,53 @@ Definition run_op (kind : Z) (d j d2 : sx) : sx :=
 End Inst.
 
 (* input: (tables kind descriptor json descriptor2) *)
-Definition run_c18 (inp : sx) : sx :=
+Definition run_c18_base (inp : sx) : sx :=
   run_op (dec_tables (sx_nth inp 0)) (sx_Z (sx_nth inp 1)) (sx_nth inp 2) (sx_nth inp 3) (sx_nth inp 4).
+
+(* ------------------------------------------------------------------ per-instance verdict (gap G.1 #2)
+   For a kind-4 (bijection) input the hypotheses of C18_bijection_roundtrip are DECIDED on the
+   descriptor the case sends (Json/Deciders.v, `bij_wf_bits`: 4 conjuncts of `spec_wf` for each of the
+   two specifications, distinct keys of the order map, distinct keys of the index data, keys of the
+   index data among the keys of the order map) and the 11 bits are appended as one extra output field;
+   kind 3 gets the 4 bits of `spec_wf`, kinds 0, 1, 2 the bits of `strat_ok`, `rule_ok` + `rule_strats_ok`,
+   `pack_ok` (below); the existing fields are unchanged.  Soundness w.r.t. `bij_wf` at exactly this instantiation of the
+   user-code variables: Props/C18.v, C18_run_bij_verdict_sound. *)
+From CSS Require Import Json.Deciders.
+
+Definition bij_wf_verdict (T : tables) (d : sx) : sx :=
+  L (map of_bool
+         (bij_wf_bits cls json_eqb (i_is_empty T) (i_cat_of T) (i_user_from_dict T)
+                      (i_decomp T) (i_reversible T) (i_eqv_cap T) (dec_bij d))).
+
+(* kind 3 (specification): the 4 conjuncts of `spec_wf` (distinct keys, spec_closed, every rule_ok,
+   every strategy honours from_dict), appended in the same way; out[4] keeps its meaning
+   (spec_closed && rule_ok && rule_plain).  Props/C18.v, C18_run_spec_verdict_sound. *)
+Definition spec_wf_verdict (T : tables) (d : sx) : sx :=
+  L (map of_bool
+         (spec_wf_bits cls json_eqb (i_is_empty T) (i_cat_of T) (i_user_from_dict T)
+                       (i_decomp T) (i_reversible T) (i_eqv_cap T) (dec_spec d))).
+
+(* kinds 0, 1, 2 (strategy, rule, pack): `strat_ok` / `rule_ok` and `rule_strats_ok` / `pack_ok`, the
+   hypotheses of C18_strategy_roundtrip / C18_rule_roundtrip / C18_pack_roundtrip.
+   Props/C18.v, C18_run_small_verdicts_sound. *)
+Definition strat_verdict (T : tables) (d : sx) : sx :=
+  L [of_bool (strat_okb (i_cat_of T) (i_user_from_dict T) (dec_strat d))].
+Definition rule_verdict (T : tables) (d : sx) : sx :=
+  L [of_bool (rule_ok cls json_eqb (i_is_empty T) (i_cat_of T) (i_decomp T) (i_reversible T) (i_eqv_cap T) (dec_rule d));
+     of_bool (rule_strats_okb cls (i_cat_of T) (i_user_from_dict T) (dec_rule d))].
+Definition pack_verdict (T : tables) (d : sx) : sx :=
+  L [of_bool (pack_okb (i_cat_of T) (i_user_from_dict T) (dec_pack d))].
+
+Definition run_c18 (inp : sx) : sx :=
+  let out := run_c18_base inp in
+  let kind := sx_Z (sx_nth inp 1) in
+  let T := dec_tables (sx_nth inp 0) in
+  let d := sx_nth inp 2 in
+  match kind with
+  | 0 => L (sx_list out ++ [strat_verdict T d])
+  | 1 => L (sx_list out ++ [rule_verdict T d])
+  | 2 => L (sx_list out ++ [pack_verdict T d])
+  | 3 => L (sx_list out ++ [spec_wf_verdict T d])
+  | 4 => L (sx_list out ++ [bij_wf_verdict T d])
+  | _ => out
+  end.
